@@ -8,6 +8,8 @@ import EaselModel.Weights.PBPerm
 import EaselModel.Weights.GSC
 import EaselModel.Weights.Mx
 import EaselModel.Weights.BlosumPerm
+import EaselModel.Weights.Rounding
+import EaselModel.Weights.FindMin
 /-! # C16 — sequence weights, identity filtering and clustering follow their definitions
 
   Theorems about the `ℚ` instance of the executable model `EaselModel.Weights` (the `Float` instance of the same
@@ -306,5 +308,34 @@ theorem gsc_relisting_fails_at :
     (diffMx (α := ℚ) Mode.text [r0, r1, r2, r3]).toList =
       [0, 5/6, 1/2, 3/4, 5/6, 0, 7/12, 2/3, 1/2, 7/12, 0, 5/12, 3/4, 2/3, 5/12, 0] := by
   decide +kernel
+
+/-- UPGMA (`cluster_engine`, mode eslUPGMA): every pass joins a pair at minimum distance among the active rows, at height
+    half that distance (ties: the first minimum in row-major order — the source of the two GSC findings) -/
+theorem upgma_joins_minimum (n : Nat) (st : UState ℚ) (step : Nat) (hN : 2 ≤ n - step) :
+    stepI n st step < stepJ n st step ∧ stepJ n st step < n - step ∧
+    (∀ r c, r < c → c < n - step → mget st.D n (stepI n st step) (stepJ n st step) ≤ mget st.D n r c) ∧
+    stepH n st step = mget st.D n (stepI n st step) (stepJ n st step) / 2 :=
+  upgmaStep_joins_minimum n st step hN
+
+/-- L0 bridge for thresholds equal to an attained identity: with ANY monotone rounding `fl` of the quotient whose error
+    on [0,1] is at most ε, the test `fl(p/q) ≤ fl(nid/n)` (what `pid >= maxid` computes when `maxid` is the rounded
+    identity p/q of some pair) decides exactly like the rational comparison as long as 2·ε·n·q < 1
+    (binary64: ε = 2⁻⁵³, n, q ≤ 400). That IEEE division is such a rounding is trusted. -/
+theorem threshold_at_attained_identity (fl : ℚ → ℚ) (ε : ℚ)
+    (hmono : ∀ x y, x ≤ y → fl x ≤ fl y) (herr : ∀ x, 0 ≤ x → x ≤ 1 → |fl x - x| ≤ ε)
+    (nid n p q : ℕ) (hn : 0 < n) (hq : 0 < q) (hnid : nid ≤ n) (hp : p ≤ q) (hsmall : 2 * ε * (n * q) < 1) :
+    fl ((p : ℚ) / q) ≤ fl ((nid : ℚ) / n) ↔ (p : ℚ) / q ≤ (nid : ℚ) / n :=
+  threshold_decision_exact fl ε hmono herr nid n p q hn hq hnid hp hsmall
+
+example : ∃ (fl : ℚ → ℚ) (ε : ℚ), (∀ x y, x ≤ y → fl x ≤ fl y) ∧ (∀ x, 0 ≤ x → x ≤ 1 → |fl x - x| ≤ ε) ∧
+    2 * ε * ((400 : ℕ) * (400 : ℕ)) < 1 :=
+  ⟨id, 0, fun _ _ h => h, fun x _ _ => by simp, by norm_num⟩
+
+/-! non-vacuity of the remaining hypotheses -/
+example : 0 < lenSpec Mode.text [65, 45] := by decide
+example : lenSpec (Mode.digital Abc.amino) [20, 28] = 0 := by decide
+example : ([3, 1, 2, 0] : List Nat).Nodup := by decide
+example : Abc.amino.K ≤ Abc.amino.Kp ∧ Abc.dna.K ≤ Abc.dna.Kp := by decide
+example : ([[65, 65], [65, 67]] : List Row) ≠ [] ∧ ([[65, 65], [65, 67]] : List Row).length ≠ 1 := by decide
 
 end EaselModel.Props.C16
